@@ -55,6 +55,15 @@ const NEST1_WAT: &str = r#"(component
 const NEST2_WAT: &str = r#"(component
   (import "i" (instance (export "x" (instance (export "a" (func)) (export "b" (func)))))))"#;
 
+/// imports `f` and exports it again under the same name (chains of these are generated)
+const PASS_WAT: &str = r#"(component
+  (import "f" (func $f))
+  (core func $cf (canon lower (func $f)))
+  (core module $m (import "" "f" (func)) (func (export "f") call 0))
+  (core instance $i (instantiate $m (with "" (instance (export "f" (func $cf))))))
+  (func $g (canon lift (core func $i "f")))
+  (export "f" (func $g)))"#;
+
 /// exports `h`, which no socket here imports
 const OTHER_WAT: &str = r#"(component
   (core module $m (func (export "h")))
@@ -62,7 +71,43 @@ const OTHER_WAT: &str = r#"(component
   (func $h (canon lift (core func $i "h")))
   (export "h" (func $h)))"#;
 
-fn compositions() -> Vec<(&'static str, String)> {
+/// a generated composition: a chain of `len` pass-through instances between `name` and
+/// `greeter`, optionally leaving the first link to an implicit import and exporting extras
+fn chain(len: usize, implicit_head: bool, export_all: bool) -> String {
+    let mut s = String::from("package t:comp;\n");
+    let mut prev = if implicit_head {
+        None
+    } else {
+        s.push_str("let n = new t:name {};\n");
+        Some("n".to_string())
+    };
+    for i in 0..len {
+        match &prev {
+            Some(p) => s.push_str(&format!("let p{i} = new t:pass {{ f: {p}.f }};\n")),
+            None => s.push_str(&format!("let p{i} = new t:pass {{ ... }};\n")),
+        }
+        if export_all {
+            s.push_str(&format!("export p{i}.f as link{i};\n"));
+        }
+        prev = Some(format!("p{i}"));
+    }
+    match &prev {
+        Some(p) => s.push_str(&format!("let g = new t:greeter {{ f: {p}.f }};\n")),
+        None => s.push_str("let g = new t:greeter { ... };\n"),
+    }
+    s.push_str("export g.g;\n");
+    s
+}
+
+fn compositions(r: &mut Rng, extra: usize) -> Vec<(&'static str, String)> {
+    let mut v = fixed_compositions();
+    for _ in 0..extra {
+        v.push(("generated-chain", chain(r.below(4), r.chance(1, 3), r.chance(1, 2))));
+    }
+    v
+}
+
+fn fixed_compositions() -> Vec<(&'static str, String)> {
     vec![
         ("ok", "package t:comp;\nlet n = new t:name {};\nlet g = new t:greeter { f: n.f };\nexport g.g;\n".into()),
         ("ok-implicit", "package t:comp;\nlet g = new t:greeter { ... };\nexport g.g;\n".into()),
@@ -277,6 +322,7 @@ fn main() {
         ("greeter", comp(GREETER_WAT)),
         ("nest1", comp(NEST1_WAT)),
         ("nest2", comp(NEST2_WAT)),
+        ("pass", comp(PASS_WAT)),
     ];
     let name2 = comp(NAME2_WAT);
     let other = comp(OTHER_WAT);
@@ -305,7 +351,8 @@ fn main() {
         DepsVariant { label: "wrong-deps-dir", dir: "deps", flag: Some("nowhere"), deps: vec![], omit_name_from_dir: false },
         DepsVariant { label: "dangling-dep", dir: "deps", flag: None, deps: vec![("t:name", "elsewhere/missing.wasm")], omit_name_from_dir: false },
     ];
-    for (clabel, source) in compositions() {
+    let all_compositions = compositions(&mut r, if thorough { 40 } else { 3 });
+    for (clabel, source) in all_compositions.clone() {
         for v in &variants {
             // the flag product is complete for the main variants and sampled (1/2) for the others in quick
             for mask in 0..16u32 {
@@ -565,7 +612,7 @@ fn main() {
     }
 
     // ---------------------------------------------------------------- parse
-    for (label, source) in compositions().iter().map(|(l, s)| (*l, s.clone())).chain([("missing-file", String::new())]) {
+    for (label, source) in all_compositions.iter().map(|(l, s)| (*l, s.clone())).chain([("missing-file", String::new())]) {
         if !mine(&mut idx) {
             continue;
         }
